@@ -343,12 +343,20 @@ def _wrap(tree, names, minprec, style):
     return '(%s)' % s if prec < minprec else s
 
 
+def _num(style, c):
+    nm = style.get('named') if style else None
+    if nm and not isinstance(c, bool) and float(c) == float(nm[1]):
+        return nm[0]
+    return fmt_num(c)
+
+
 def render(tree, names, style=None):
     """mystic text of a tree / relation / system under the variable names ``names``
     (names[i] is variable i).  style: None or a dict with
       'minus': True  -> write '- 2.0*x1' instead of '+ -2.0*x1'
       'unit':  True  -> write 'x1' instead of '1.0*x1' (and '-x1' for -1.0)
       'opspace': True -> blanks around the * / ** of products, quotients and powers
+      'named': [name, value] -> every literal equal to value is written as the name (a constant handed over in locals=)
     Linear forms print all their terms, including zero coefficients; a zero constant
     is omitted unless it is the only term."""
     style = style or {}
@@ -358,7 +366,7 @@ def render(tree, names, style=None):
     if k == 'rel':
         return '%s %s %s' % (render(tree[1], names, style), tree[2], render(tree[3], names, style))
     if k == 'const':
-        return fmt_num(tree[1])
+        return _num(style, tree[1])
     if k == 'var':
         return names[tree[1]]
     if k == 'lin':
@@ -368,9 +376,9 @@ def render(tree, names, style=None):
             if style.get('unit') and cf in (1.0, -1.0) and (cf == 1.0 or not parts or style.get('minus')):
                 body, neg = names[i], cf < 0
             elif style.get('minus') and cf < 0 and parts:
-                body, neg = '%s*%s' % (fmt_num(-c), names[i]), True
+                body, neg = '%s*%s' % (_num(style, -c), names[i]), True
             else:
-                body, neg = '%s*%s' % (fmt_num(c), names[i]), False
+                body, neg = '%s*%s' % (_num(style, c), names[i]), False
             if not parts:
                 parts.append(('-' + body) if neg else body)
             else:
@@ -378,11 +386,11 @@ def render(tree, names, style=None):
         c0 = tree[2]
         if c0 is not None and (float(c0) != 0 or not parts):
             if not parts:
-                parts.append(fmt_num(c0))
+                parts.append(_num(style, c0))
             elif style.get('minus') and float(c0) < 0:
-                parts.append(' - ' + fmt_num(-c0))
+                parts.append(' - ' + _num(style, -c0))
             else:
-                parts.append(' + ' + fmt_num(c0))
+                parts.append(' + ' + _num(style, c0))
         return ''.join(parts)
     if k == 'neg':
         return '-' + _wrap(tree[1], names, 3, style)
@@ -394,11 +402,11 @@ def render(tree, names, style=None):
         return '%s - %s' % (_wrap(tree[1], names, 1, style), _wrap(tree[2], names, 3, style))
     if k in ('mul', 'div'):
         # a leading negative literal needs no parentheses: -2.0/x1 == (-2.0)/x1 exactly
-        left = fmt_num(tree[1][1]) if tree[1][0] == 'const' else _wrap(tree[1], names, 3, style)
+        left = _num(style, tree[1][1]) if tree[1][0] == 'const' else _wrap(tree[1], names, 3, style)
         sp = ' ' if style.get('opspace') else ''      # 'x0 / x1' and 'x0/x1' are the same text to the parser
         return '%s%s%s%s%s' % (left, sp, '*' if k == 'mul' else '/', sp, _wrap(tree[2], names, 4, style))
     if k == 'pow':
-        return ('%s ** %s' if style.get('opspace') else '%s**%s') % (_wrap(tree[1], names, 5, style), fmt_num(tree[2]))
+        return ('%s ** %s' if style.get('opspace') else '%s**%s') % (_wrap(tree[1], names, 5, style), _num(style, tree[2]))
     if k in ('abs', 'sqrt', 'sin', 'cos', 'exp', 'tanh'):
         return '%s(%s)' % (k, render(tree[1], names, style))
     if k in ('min', 'max'):
